@@ -10,7 +10,7 @@
 From Coq Require Import List Arith Lia.
 From PM Require Import Model.Data Model.Mark Model.Tree Spec.Tokens
   Proofs.ReplaceValid Proofs.SliceSides Proofs.TokenBasics Proofs.PathTokens Proofs.ReplaceTokens Proofs.SliceShape
-  Proofs.SliceTokens Proofs.SliceCut.
+  Proofs.SliceTokens Proofs.SliceCut Proofs.TokenInj Proofs.ReplaceCanon Proofs.DocEquality.
 Import ListNotations.
 
 Theorem C02_replace_is_token_splice : forall s doc from to sl d',
@@ -69,3 +69,27 @@ Theorem C02_slice_is_token_range : forall s doc from to sl,
   inner_toks s sl = seg (ftoks s (node_content doc)) from to.
 Proof. exact node_slice_toks. Qed.
 Print Assumptions C02_slice_is_token_range.
+
+(* normal form: no empty text node, no two adjacent text nodes with == marks, leaf nodes without content
+   ([canon]; what Fragment.from_array, Node.replace and the schema's constructors produce).  Node.replace keeps
+   it, and two documents in normal form with the same token sequence are equal by Node.eq (TokenInj). *)
+Theorem C02_replace_keeps_normal_form : forall s doc from to sl d',
+  canon s doc = true -> is_leaf_ty s (node_ty s doc) = false -> canon_list s (sl_content sl) = true ->
+  node_replace s doc from to sl = Ok d' -> canon s d' = true.
+Proof. exact node_replace_canon. Qed.
+Print Assumptions C02_replace_keeps_normal_form.
+
+(* re-inserting a slice where it was cut gives back an equal document (Node.eq), whenever the replace returns *)
+Theorem C02_reinsert_cut_slice_gives_equal_document : forall s from to doc sl d',
+  check s doc = true -> NormalDoc s doc -> from <= to ->
+  node_slice s doc from to = Ok sl -> node_replace s doc from to sl = Ok d' ->
+  node_eqb d' doc = true.
+Proof. exact reinsert_cut_slice_eq. Qed.
+Print Assumptions C02_reinsert_cut_slice_gives_equal_document.
+
+(* the hypotheses are met by ordinary documents: the example document of Properties/C01.v *)
+From PM Require Properties.C01.
+Example C02_normal_form_example :
+  check Properties.C01.ex_schema Properties.C01.ex_doc = true /\ NormalDoc Properties.C01.ex_schema Properties.C01.ex_doc /\
+  canon_list Properties.C01.ex_schema (sl_content Properties.C01.ex_slice) = true.
+Proof. split; [vm_compute; reflexivity|]. split; [split; vm_compute; reflexivity|vm_compute; reflexivity]. Qed.
